@@ -3,9 +3,12 @@
 package archiver
 
 import (
+	"context"
 	"os"
 
 	"github.com/internetarchive/Zeno/internal/pkg/config"
+	"github.com/internetarchive/Zeno/internal/pkg/controler/pause"
+	"github.com/internetarchive/Zeno/internal/pkg/stats"
 	"github.com/internetarchive/Zeno/internal/verifrt"
 	"github.com/internetarchive/Zeno/pkg/models"
 )
@@ -44,4 +47,46 @@ func VerifH_C03_archiver_startstop() {
 	Stop() // a nil dereference or a hang here is the violation (panic / deadlock reported by the engine)
 	verifrt.Cover("stopped")
 	verifrt.Assert(a.Client != nil || a.ClientWithProxy != nil, "C03 some WARC client was created")
+}
+
+// VerifH_C03_archiver_workers: the real archiver worker loop (started as Start does, without the WARC clients):
+// stop returns when idle, when holding a seed nobody downstream reads, and when paused.
+func VerifH_C03_archiver_workers() {
+	_ = stats.Init()
+	ctx, cancel := context.WithCancel(context.Background())
+	in := make(chan *models.Item, 1)
+	outCap := verifrt.Choice("downstream-capacity", 2)
+	out := make(chan *models.Item, outCap)
+	stuck := false
+	a := &archiver{ctx: ctx, cancel: cancel, inputCh: in, outputCh: out}
+	n := 1 + verifrt.Choice("workers-1", 2)
+	for i := 0; i < n; i++ {
+		a.wg.Add(1)
+		go a.worker("w")
+	}
+	verifrt.Quiesce()
+	if verifrt.Choice("seed", 2) == 1 {
+		s := models.NewItem("seed-1", &models.URL{Raw: "http://x.example/"}, "")
+		s.SetStatus(models.ItemCompleted) // skipped by the archiver, handed on as it is
+		in <- s
+		stuck = outCap == 0
+		verifrt.Cover("seed-in-flight")
+	}
+	switch verifrt.Choice("pause", 3) {
+	case 1:
+		pause.Pause("verif")
+		verifrt.Settle()
+		verifrt.Cover("stop-while-paused")
+	case 2:
+		if stuck {
+			return // Resume legitimately waits for a worker that is stuck on a consumer that never reads: not a stop scenario
+		}
+		pause.Pause("verif")
+		verifrt.Settle()
+		pause.Resume()
+		verifrt.Settle()
+	}
+	a.cancel()
+	a.wg.Wait()
+	verifrt.Cover("stopped")
 }
